@@ -295,6 +295,31 @@ def r5_trailing_bytes(ck, w):
         ck.record('C03.R5', f'assert_empty-after-prepare:{nid}', bool(res) and all(ok for _, _, ok in res),
                   'assert_empty() post-dominates prepare() on success paths',
                   f'{nid}: a success path after prepare() returns without assert_empty(): trailing proof bytes are accepted', reach.loc(b))
+    # the transcript whose emptiness is asserted must be the one handed to prepare() (HIR: same local)
+    for nid in sorted(set(owners)):
+        if nid in tables.C03_PREPARE_OWNER_EXEMPT:
+            continue
+        f = w.fn(reach.parent_fn(nid))
+        scope = f['body']
+        if '{closure' in nid:
+            clos = [n for n in walk(f['body']) if n.get('k') == 'closure' and norm(n['id']) == nid]
+            scope = clos[0]['body'] if clos else f['body']
+        prep_locals, ae_locals = set(), set()
+        for n in hirq.calls(scope):
+            c = callee(n) or ''
+            if c == prep:
+                for a in n.get('args', []):
+                    r = hirq.recv_root(a)
+                    if r.get('k') == 'local' and 'Transcript' in (r.get('t') or ''):
+                        prep_locals.add(r['i'])
+            if n.get('m') == 'assert_empty' or c.endswith('::assert_empty'):
+                r = hirq.recv_root(n.get('recv') or (n.get('args') or [{}])[0])
+                if r.get('k') == 'local':
+                    ae_locals.add(r['i'])
+        ck.record('C03.R5', f'assert_empty-same-transcript:{nid}', bool(prep_locals) and bool(prep_locals & ae_locals),
+                  'assert_empty() is called on the transcript that prepare() consumed',
+                  f'{nid}: assert_empty() is called on a different transcript than the one prepare() read the proof from: trailing proof bytes go unnoticed',
+                  hirq.fn_loc(f))
     ae = w.mir_body(CT + 'assert_empty')
     has_err = any(mc.is_err_exit(blk) for blk in ae['blocks'])
     uses_pos = bool(mc.call_blocks(ae, lambda c, t: c.endswith('Cursor::position'))) and bool(mc.call_blocks(ae, lambda c, t: c.endswith('::len')))
